@@ -5,8 +5,11 @@ package c06
 
 import (
 	"bytes"
+	"context"
 	"fmt"
+	"io"
 	"slices"
+	"verif/internal/memnet"
 
 	"github.com/c2FmZQ/ech"
 
@@ -405,8 +408,109 @@ func Run(r *ev.Run) {
 		r.Add("transitions", int64(len(trans)))
 		r.Outcome(fmt.Sprintf("%s: model states=%d transitions=%d", w.name, len(states), len(trans)), int64(total))
 	}
+	extras(r, &worlds[0])
 	interleavings(r)
 	r.Set("traces_validated_against_impl", fullTotal+2*fullTotal/nev)
 	r.Set("history_depth", depth)
 	r.Set("alphabet", nev)
 }
+
+// extras: the retry protocol through two more doors. (1) The HelloRetryRequest framed in two records cut at EVERY offset of the
+// message: it arms the retry exactly like one in a single record. (2) The front end relays with io.Copy(backend, conn) - the use
+// the package documentation describes - instead of calling Read itself: whatever method io.Copy picks on the Conn, the backend
+// receives the first inner hello and, after its HelloRetryRequest, the second INNER hello.
+func extras(r *ev.Run, w *world) {
+	var good, hrr *event
+	for i := range w.events {
+		switch w.events[i].Name {
+		case "CH2-good":
+			good = &w.events[i]
+		case "b-HRR":
+			hrr = &w.events[i]
+		}
+	}
+	hrrMsg := hrr.Rec[5:]
+	for cut := 1; cut < len(hrrMsg); cut++ {
+		replay := map[string]any{"family": "hrr-in-two-records", "cut": cut}
+		sess, err, p := echx.OpenSession(w.first, w.keys)
+		if p != nil || err != nil {
+			r.Violation("extras:first-hello", fmt.Sprint(err, p), replay)
+			return
+		}
+		sess.ReadOnce()
+		frag := tlsref.Fragment(0x0303, hrrMsg, cut)
+		n, werr, p := sess.BackendSend(frag)
+		got, rerr, p2 := sess.ClientSend(good.Rec)
+		oc := "hrr-in-two-records -> retried"
+		switch {
+		case p != nil || p2 != nil:
+			r.Violation("panic:hrr-in-two-records", fmt.Sprint(p, p2), replay)
+		case werr != nil || n != len(frag) || !bytes.Equal(sess.T.OutBytes(), frag):
+			oc = "hrr-in-two-records -> write failed"
+			r.Violation("fragmented-hrr-not-relayed", fmt.Sprintf("HelloRetryRequest framed in two records (first fragment %d bytes): Write = (%d, %v), the client received %d of %d bytes", cut, n, werr, len(sess.T.OutBytes()), len(frag)), replay)
+		case rerr != nil || len(got) < 5 || !bytes.Equal(got[5:], good.inner[5:]):
+			oc = "hrr-in-two-records -> NOT retried"
+			r.Violation("fragmented-hrr-does-not-arm-retry", fmt.Sprintf("HelloRetryRequest framed in two records (first fragment %d bytes, the second one starts with %#x): the valid retried hello was not replaced by its inner hello (err=%v, %d bytes delivered)", cut, hrrMsg[cut], rerr, len(got)), replay)
+		}
+		r.Eval(fmt.Sprint("hrr-cut:", cut), oc)
+	}
+	// (2) io.Copy from the Conn into a writer that plays the backend: on receiving the first hello it writes the
+	// HelloRetryRequest back through the Conn before it returns
+	{
+		replay := map[string]any{"family": "relay-with-io.Copy"}
+		tail := tlsref.Record(23, 0x0303, tlsref.DetBytes("after", 30))
+		t := memnet.New()
+		t.Feed(w.first)
+		conn, err := ech.NewConn(context.Background(), t, ech.WithKeys(w.keys))
+		if err != nil {
+			r.Violation("extras:first-hello", fmt.Sprint(err), replay)
+			return
+		}
+		var backendGot []byte
+		hrrSent := false
+		var werr error
+		dst := writerFunc(func(b []byte) (int, error) {
+			backendGot = append(backendGot, b...)
+			if !hrrSent && len(backendGot) >= 5 {
+				hrrSent = true
+				_, werr = conn.Write(hrr.Rec)
+				// the client answers the HelloRetryRequest; then its stream ends
+				t.Feed(good.Rec)
+				t.Feed(tail)
+				t.End(io.EOF)
+			}
+			return len(b), nil
+		})
+		var cerr error
+		func() {
+			defer func() {
+				if p := recover(); p != nil {
+					cerr = fmt.Errorf("panic: %v", p)
+				}
+			}()
+			_, cerr = io.Copy(dst, conn)
+		}()
+		var hs []byte
+		rest := backendGot
+		for len(rest) >= 5 && rest[0] == 22 && 5+(int(rest[3])<<8|int(rest[4])) <= len(rest) {
+			n := 5 + (int(rest[3])<<8 | int(rest[4]))
+			hs = append(hs, rest[5:n]...)
+			rest = rest[n:]
+		}
+		firstInner, _, _ := func() ([]byte, error, any) {
+			s2, _, _ := echx.OpenSession(w.first, w.keys)
+			return s2.ReadOnce()
+		}()
+		want := append(append([]byte{}, firstInner[5:]...), good.inner[5:]...)
+		oc := "io.Copy relay -> both inner hellos"
+		if cerr != nil || werr != nil || !bytes.Equal(hs, want) || !bytes.Equal(rest, tail) {
+			oc = "io.Copy relay -> WRONG STREAM"
+			r.Violation("relay-with-io-copy:backend-stream-differs", fmt.Sprintf("io.Copy(backend, conn) with a HelloRetryRequest written after the first hello: the backend received %d handshake bytes (want %d = both reconstructed inner hellos) and %d more bytes (want %d); copy error %v, write error %v", len(hs), len(want), len(rest), len(tail), cerr, werr), replay)
+		}
+		r.Eval("relay-with-io.Copy", oc)
+	}
+}
+
+type writerFunc func([]byte) (int, error)
+
+func (f writerFunc) Write(b []byte) (int, error) { return f(b) }
